@@ -1,33 +1,76 @@
 #!/usr/bin/env python3
-"""Regenerates the seeded-change table of DESIGN.md §8.6 from seeded/matrix.tsv and seeded/*/meta.json."""
+"""Regenerates the seeded-change tables of DESIGN.md (§8.6 round 1, §8.9 rounds 2-3) from seeded/matrix.tsv, seeded/first_run.tsv and
+seeded/*/meta.json."""
 import json, os, re
 V = os.path.dirname(os.path.dirname(os.path.abspath(__file__)))
-rows = {}
-for line in open(os.path.join(V, "seeded", "matrix.tsv")):
-    if not line.strip():
-        continue
-    k, _, v = line.rstrip("\n").partition("\t")
-    sid = k.split("/")[0] if k.endswith("patch.diff") else k.replace("/", "_")
-    rows[sid] = v.split()
-out = ["| seed | file(s) changed | what the change does (short) | reported by |", "|---|---|---|---|"]
-for sid in sorted(rows):
-    m = json.load(open(os.path.join(V, "seeded", sid, "meta.json")))
+
+
+def read_tsv(name):
+    rows = {}
+    path = os.path.join(V, "seeded", name)
+    if not os.path.exists(path):
+        return rows
+    for line in open(path):
+        if not line.strip():
+            continue
+        k, _, v = line.rstrip("\n").partition("\t")
+        sid = k.split("/")[0] if k.endswith("patch.diff") else k.replace("/", "_")
+        rows[sid] = v.split()
+    return rows
+
+
+rows = read_tsv("matrix.tsv")
+first = read_tsv("first_run.tsv")
+
+
+def meta(sid):
+    return json.load(open(os.path.join(V, "seeded", sid, "meta.json")))
+
+
+def short(m):
     what = re.sub(r"\s+", " ", (m.get("breaks") or ""))
     what = what.split(": ", 1)[-1] if len(what) > 160 else what
-    what = (what[:150] + "…") if len(what) > 150 else what
-    own = m["property"]
-    by = rows[sid]
-    by_s = ", ".join(("**%s**" % c) if c == own else c for c in by) or "**MISSED**"
-    out.append("| %s | %s | %s | %s |" % (sid, ", ".join(os.path.basename(f) for f in (m.get("files") or [])), what.replace("|", "/"), by_s))
-n_own = sum(1 for sid in rows if json.load(open(os.path.join(V, "seeded", sid, "meta.json")))["property"] in rows[sid])
+    return ((what[:150] + "…") if len(what) > 150 else what).replace("|", "/")
+
+
+def bold(by, own):
+    return ", ".join(("**%s**" % c) if c == own else c for c in by) or "**nothing**"
+
+
+def put(s, tag, txt):
+    return re.sub(r"<!-- %s:begin -->.*?<!-- %s:end -->" % (tag, tag), lambda _m: "<!-- %s:begin -->\n%s\n<!-- %s:end -->" % (tag, txt, tag), s, flags=re.S)
+
+
+# round 1
+r1 = sorted(sid for sid in rows if not sid.startswith("R"))
+out = ["| seed | file(s) changed | what the change does (short) | reported by |", "|---|---|---|---|"]
+for sid in r1:
+    m = meta(sid)
+    out.append("| %s | %s | %s | %s |" % (sid, ", ".join(os.path.basename(f) for f in (m.get("files") or [])), short(m), bold(rows[sid], m["property"])))
+n_own = sum(1 for sid in r1 if meta(sid)["property"] in rows[sid])
 out.append("")
-out.append("%d of %d seeded changes are reported; %d by the check of the property they were written against (bold), the others by a neighbouring property's check that owns the construct." % (sum(1 for r in rows.values() if r), len(rows), n_own))
-txt = "\n".join(out)
+out.append("%d of %d seeded changes are reported; %d by the check of the property they were written against (bold), the others by a neighbouring property's check that owns the construct."
+           % (sum(1 for sid in r1 if rows[sid]), len(r1), n_own))
+t1 = "\n".join(out)
+# rounds 2, 3
+r23 = sorted(sid for sid in rows if sid.startswith("R"))
+out = ["| seed | file(s) changed | what the change does (short) | first run: reported by | now: reported by |", "|---|---|---|---|---|"]
+for sid in r23:
+    m = meta(sid)
+    out.append("| %s | %s | %s | %s | %s |" % (sid, ", ".join(os.path.basename(f) for f in (m.get("files") or [])), short(m),
+                                              bold(first.get(sid, []), m["property"]) if sid in first else "(not recorded)", bold(rows[sid], m["property"])))
+own_first = sum(1 for sid in r23 if meta(sid)["property"] in first.get(sid, []))
+none_first = sum(1 for sid in r23 if not first.get(sid, []))
+own_now = sum(1 for sid in r23 if meta(sid)["property"] in rows[sid])
+none_now = [sid for sid in r23 if not rows[sid]]
+out.append("")
+out.append("First run: %d of %d by the own property's check, %d by nothing. Now: %d by the own check, %d by a neighbour only, %d by nothing%s."
+           % (own_first, len(r23), none_first, own_now, len(r23) - own_now - len(none_now), len(none_now), (" (" + ", ".join(none_now) + ")") if none_now else ""))
+t2 = "\n".join(out)
 p = os.path.join(V, "DESIGN.md")
 s = open(p).read()
-if "SEED_TABLE_PLACEHOLDER" in s:
-    s = s.replace("SEED_TABLE_PLACEHOLDER", "<!-- seed-table:begin -->\n" + txt + "\n<!-- seed-table:end -->")
-else:
-    s = re.sub(r"<!-- seed-table:begin -->.*?<!-- seed-table:end -->", lambda _m: "<!-- seed-table:begin -->\n" + txt + "\n<!-- seed-table:end -->", s, flags=re.S)
+s = put(s, "seed-table", t1)
+s = s.replace("SEED2_TABLE_PLACEHOLDER", t2) if "SEED2_TABLE_PLACEHOLDER" in s else put(s, "seed2-table", t2)
 open(p, "w").write(s)
-print(txt[:600])
+print(t1[-300:])
+print(t2[-400:])
